@@ -476,9 +476,26 @@ func (w *Writer) collectNeedBakeExpressions(fn *ir.Function) {
 				if !w.isLiteralExpression(fn, mathExpr.Arg) {
 					w.needBakeExpression[mathExpr.Arg] = struct{}{}
 				}
+			case ir.MathSign:
+				// The integer expansion writes the argument next to `>` and `==`:
+				// sign(a & b) must not become (a & b > 0).
+				if w.isSignedIntExpression(mathExpr.Arg) && !w.isLiteralExpression(fn, mathExpr.Arg) {
+					w.needBakeExpression[mathExpr.Arg] = struct{}{}
+				}
 			}
 		}
 	}
+}
+
+// isSignedIntExpression reports whether the expression is a signed integer scalar or vector.
+func (w *Writer) isSignedIntExpression(h ir.ExpressionHandle) bool {
+	switch t := w.getExpressionType(h).(type) {
+	case ir.ScalarType:
+		return t.Kind == ir.ScalarSint
+	case ir.VectorType:
+		return t.Scalar.Kind == ir.ScalarSint
+	}
+	return false
 }
 
 // exprBakeRefCount returns the minimum reference count for baking an expression.
